@@ -28,10 +28,14 @@ UF = {}
 
 
 def uf(name, *sorts):
-    """Named uninterpreted function (spec-level abstraction)."""
-    if name not in UF:
-        UF[name] = z3.Function(name, *sorts)
-    return UF[name]
+    """Named uninterpreted function (spec-level abstraction); overloads of
+    one name on different sorts are distinct symbols."""
+    key = (name, tuple(str(x) for x in sorts))
+    if key not in UF:
+        first = not any(k[0] == name for k in UF)
+        sym = name if first else '%s$%s' % (name, '_'.join(key[1][:-1]))
+        UF[key] = z3.Function(sym, *sorts)
+    return UF[key]
 
 
 def _ival(v):
@@ -179,7 +183,7 @@ def install(world):
     reg('dict', b_dict, True)
 
     def b_set(it, node, x=()):
-        if isinstance(x, (tuple, list, set, frozenset)):
+        if isinstance(x, (tuple, list, set, frozenset, str)):
             return set(x)
         raise Unsupported('set() of %r' % (x,))
     reg('set', b_set, True)
@@ -335,6 +339,12 @@ def install(world):
     world.method_models.append(lambda o, n, a, k, it, node: dict_method(
         world, o, n, a, k, it, node))
 
+    def opaque_method(o, n, a, k, it, node):
+        if isinstance(o, SVal) and n in world.opaque_sigs:
+            return world.opaque_sigs[n](o, a, k, it)
+        return NotImplemented
+    world.method_models.append(opaque_method)
+
 
 def _as_seq(world, it, x):
     if isinstance(x, MList):
@@ -349,8 +359,20 @@ def _as_seq(world, it, x):
 
 
 def _box_any(x):
-    if isinstance(x, (SSeq, MList, tuple, list, dict)):
+    if isinstance(x, dict) and all(isinstance(k, str) for k in x):
+        # record literal: constructor symbol named by its keys
+        keys = sorted(x)
+        f = uf('pydict:' + ','.join(keys), *([S.Val] * len(keys) + [S.Val]))
+        return f(*[_box_any(x[k]) for k in keys]) if keys else \
+            z3.Const('pydict:empty', S.Val)
+    if isinstance(x, tuple):
+        f = uf('pytuple/%d' % len(x), *([S.Val] * len(x) + [S.Val]))
+        return f(*[_box_any(v) for v in x]) if x else \
+            z3.Const('pytuple:empty', S.Val)
+    if isinstance(x, (SSeq, MList, list, dict)):
         return z3.Const(S.fresh_name('container'), S.Val)
+    if hasattr(x, 'as_val'):
+        return x.as_val()
     return S.box(x)
 
 
@@ -433,8 +455,7 @@ def isinstance_one(world, it, x, c):
 def str_method(world, o, name, args, kw, it, node):
     if not isinstance(o, (str, SStr)):
         return NotImplemented
-    if isinstance(o, str) and not any(S.is_sym(a) for a in args) and not any(
-            isinstance(a, (MList, SSeq)) for a in args):
+    if isinstance(o, str) and not any(_deep_sym(a) for a in args):
         if name in ('format',):
             raise Unsupported('str.format')
         try:
@@ -520,6 +541,12 @@ def str_method(world, o, name, args, kw, it, node):
                 'islower'):
         return SBool(uf('str_' + name, z3.StringSort(), z3.BoolSort())(s))
     raise Unsupported('str.%s' % name)
+
+
+def _deep_sym(a):
+    if isinstance(a, (tuple, list)):
+        return any(_deep_sym(x) for x in a)
+    return S.is_sym(a) or isinstance(a, MList)
 
 
 def _rfind(window, sub, a, lo, n):
@@ -671,54 +698,65 @@ def dict_method(world, o, name, args, kw, it, node):
 
 # ------------------------------------------------- spec helper names ----
 
-def spec_helpers(world, it):
-    """Names available inside contract expressions only."""
-    def forall(dom, fn):
+def spec_helpers(world, it=None):
+    """Names available inside contract expressions only. Each helper gets
+    the *calling* interpreter (spec mode) as its first argument."""
+    def forall(it, node, dom, fn):
         return _quant(world, it, dom, fn, True)
 
-    def exists(dom, fn):
+    def exists(it, node, dom, fn):
         return _quant(world, it, dom, fn, False)
 
-    def implies(a, b):
+    def implies(it, node, a, b):
         ta, tb = S.as_bool_term(it.truth(a)), S.as_bool_term(it.truth(b))
         return SBool(z3.Implies(ta, tb))
 
-    def iff(a, b):
+    def iff(it, node, a, b):
         ta, tb = S.as_bool_term(it.truth(a)), S.as_bool_term(it.truth(b))
         return SBool(ta == tb)
 
-    def ite(c, a, b):
+    def ite(it, node, c, a, b):
         c = it.truth(c)
         if isinstance(c, bool):
             return a if c else b
         return it.merge(c, a, b)
 
-    def truthy(x):
+    def truthy(it, node, x):
         t = it.truth(x)
         return t if isinstance(t, bool) else SBool(t)
 
-    def ufn(name, *args, ret='Val'):
-        sorts = []
-        terms = []
-        for a in args:
-            t = S.type_of(a)
-            if t is None or isinstance(t, TSeq):
-                if isinstance(a, (SSeq, MList)):
-                    q = a.seq if isinstance(a, MList) else a
-                    terms += [q.arr, q.off, q.length]
-                    sorts += [q.arr.sort(), z3.IntSort(), z3.IntSort()]
-                    continue
-                t = TVal
-            terms.append(t.unwrap(a))
-            sorts.append(t.sort())
-        rt = {'Val': TVal, 'Int': TInt, 'Bool': TBool, 'Str': TStr,
-              'Real': TReal}[ret]
-        return rt.wrap(uf(name, *(sorts + [rt.sort()]))(*terms))
+    def ufn(it, node, name, *args, ret='Val'):
+        return apply_uf(name, args, ret)
 
-    return dict(forall=Model('forall', forall), exists=Model('exists', exists),
-                implies=Model('implies', implies), iff=Model('iff', iff),
-                ite=Model('ite', ite), truthy=Model('truthy', truthy),
-                ufn=Model('ufn', ufn))
+    def val(it, node, x):
+        return SVal(S.box_any(x))
+
+    d = dict(val=val, forall=forall, exists=exists, implies=implies, iff=iff,
+             ite=ite, truthy=truthy, ufn=ufn)
+    return {k: Model(k, v, True) for k, v in d.items()}
+
+
+def apply_uf(name, args, ret='Val'):
+    sorts = []
+    terms = []
+    for a in args:
+        t = S.type_of(a)
+        if isinstance(a, (dict, tuple)):
+            terms.append(S.box_any(a))
+            sorts.append(S.Val)
+            continue
+        if t is None or isinstance(t, TSeq):
+            if isinstance(a, (SSeq, MList)):
+                q = a.seq if isinstance(a, MList) else a
+                terms += [q.arr, q.off, q.length]
+                sorts += [q.arr.sort(), z3.IntSort(), z3.IntSort()]
+                continue
+            t = TVal
+        terms.append(t.unwrap(a))
+        sorts.append(t.sort())
+    rt = {'Val': TVal, 'Int': TInt, 'Bool': TBool, 'Str': TStr,
+          'Real': TReal}[ret]
+    return rt.wrap(uf(name, *(sorts + [rt.sort()]))(*terms))
 
 
 def _quant(world, it, dom, fn, universal):
